@@ -10,6 +10,7 @@ mod c06;
 mod c07;
 mod c08;
 mod c09;
+mod c10;
 mod c11;
 mod c12;
 mod c13;
@@ -29,6 +30,7 @@ fn main() {
         "C07" => Some(c07::check()),
         "C08" => Some(c08::check()),
         "C09" => Some(c09::check()),
+        "C10" => Some(c10::check()),
         "C11" => Some(c11::check()),
         "C12" => Some(c12::check()),
         "C13" => Some(c13::check()),
